@@ -50,6 +50,9 @@ pub struct EmitOpts {
     pub hex_ids: bool,
     pub trailing_semis: bool,
     pub docs: bool,
+    /// texts used for doc comments (chosen by index, so two pools of equal
+    /// length give programs that differ only in their comment text)
+    pub doc_pool: Vec<String>,
 }
 
 pub fn gen_opts(e: &mut Ent) -> EmitOpts {
@@ -60,6 +63,7 @@ pub fn gen_opts(e: &mut Ent) -> EmitOpts {
         hex_ids: e.ratio(1, 4),
         trailing_semis: e.bool(),
         docs: e.ratio(1, 3),
+        doc_pool: vec![],
     }
 }
 
@@ -79,6 +83,13 @@ impl Emitter<'_, '_> {
         } else {
             " ".into()
         }
+    }
+    fn doc_line(&mut self) -> String {
+        if self.o.doc_pool.is_empty() {
+            return "// doc comment\n".to_string();
+        }
+        let i = self.e.below(self.o.doc_pool.len());
+        format!("// {}\n", self.o.doc_pool[i])
     }
     fn name(&mut self, s: &str) -> String {
         if is_plain_ident(s) && !(self.o.shorthand > 200 && self.e.bool()) {
@@ -206,7 +217,7 @@ impl Emitter<'_, '_> {
     pub fn service_body(&mut self, ms: &[(String, Ty)]) -> String {
         let mut parts = vec![];
         for (n, t) in ms {
-            let doc = if self.o.docs && self.e.ratio(1, 3) { "// doc for method\n" } else { "" };
+            let doc = if self.o.docs && self.e.ratio(1, 3) { self.doc_line() } else { String::new() };
             let sig = match t {
                 Ty::Func { .. } => self.func_sig(t),
                 other => self.ty(other),
@@ -219,7 +230,8 @@ impl Emitter<'_, '_> {
         let mut s = String::new();
         for (n, t) in &p.env.defs {
             if self.o.docs && self.e.ratio(1, 3) {
-                s.push_str("// doc comment\n");
+                let d = self.doc_line();
+                s.push_str(&d);
             }
             s.push_str(&format!("type{}{n}{}={}{};\n", self.ws(), self.ws(), self.ws(), self.ty(t)));
         }
@@ -228,6 +240,10 @@ impl Emitter<'_, '_> {
                 Ty::Service(ms) => self.service_body(ms),
                 other => self.ty(other),
             };
+            if self.o.docs && self.e.ratio(1, 2) {
+                let d = self.doc_line();
+                s.push_str(&d);
+            }
             let name = if self.e.ratio(1, 4) { " my_service" } else { "" };
             s.push_str(&format!("service{name}{}:{}{body}{}\n", self.ws(), self.ws(), if self.e.bool() { ";" } else { "" }));
         }
